@@ -142,15 +142,24 @@ fn c13_strategy(ctx: &Ctx) -> BoxedStrategy<SeqCase> {
           }
         }
       }
+      // replay over a cold source with subscribers that end by themselves (take): only the
+      // first subscription is kept - it may leave while the source is still being subscribed,
+      // which must stop the source; what a later re-connection replays is not fixed
+      let replay_cold_take = kind == ConnKind::Replay && !hot && take.is_some() && hash_seed % 2 == 0;
+      if replay_cold_take {
+        if let Some(i) = actions.iter().position(|a| matches!(a, Action::Subscribe(_))) {
+          actions.truncate(i + 1);
+        }
+      }
       SeqCase {
         case: Case {
           root,
           hots: if hot { vec![HotKind::Harness] } else { vec![] },
           hot_illformed: false,
           conn: Some(kind.clone()),
-          // subscribers that end by themselves (take) - not for replay over cold sources, whose
-          // subscriber count must stay above zero until the source finished
-          conn_take: if kind == ConnKind::Replay && !hot { None } else { take },
+          // subscribers that end by themselves (take) - otherwise not for replay over cold
+          // sources, whose subscriber count must stay above zero until the source finished
+          conn_take: if kind == ConnKind::Replay && !hot && !replay_cold_take { None } else { take },
           recorders: vec![vec![], vec![], vec![]],
           actions,
         },
